@@ -16,44 +16,56 @@ import numpy as np
 
 PROPERTY = "C08"
 CLAIM = dict(
-    text="Part A executes every (propagator, start, span, step, request form) of a finite alphabet that contains the "
-    "corners named by the property (start before/at/after the epoch, backward ranges, steps that do not divide the span, "
-    "spans shorter than the 8-point interpolation order, explicit date lists, DateRange objects) on the real Orbit.iter / "
-    "Ephem.iter and compares the yielded dates with an exact integer-microsecond range model and every yielded state with "
-    "a direct propagate() on fresh objects. Part B is an explicit-state search: all call sequences up to depth 3 (quick) / "
-    "4 (thorough) over 7 operations (propagate to two dates, full iteration, iteration abandoned after two items with listeners, "
-    "iteration with listeners, ephem(), propagation of a SECOND orbit bound to the same propagator object) on one shared orbit, its "
-    "propagator and two listener objects; for the ephemeris 9 operations including own-step iterations and the resumption of a "
-    "suspended iterator. Each history is re-executed from scratch on the real objects; the observation (propagate(t*), a listened "
-    "stream with events, bytes and metadata of the initial orbit) must equal that of fresh objects.",
+    text="Part A executes every (propagator, start, span, step, request form, entry point) of a finite alphabet that contains the "
+    "corners named by the property (start before/at/after the epoch, backward ranges, steps that do not divide the span, spans shorter "
+    "than the 8-point interpolation order) and every calling form documented in Propagator.iter / Ephem.iter (stop as Date or as "
+    "timedelta, start given / omitted / None, explicitly negative step, dates= as DateRange / list / generator, real_steps, through "
+    "Orbit.iter / ephem / ephemeris / Station.visibility) on 10 propagator fixtures, two of which (ClohessyWiltshire, KeplerNum) carry an "
+    "impulse dated exactly at the epoch, an impulse inside the range and a continuous burn. The yielded dates are compared with an exact "
+    "integer-microsecond range model, every yielded state with a direct propagate() on a fresh object, and the initial orbit as well as "
+    "the propagator's bound copy must be bit-identical afterwards. Part B is an explicit-state search: all call sequences up to depth 3 "
+    "(quick) / 4 (thorough) over 8 operations (propagate to two dates, full iteration, iteration abandoned after two items with listeners, "
+    "iteration with listeners over (start, stop, step) and over explicit dates, ephem(), propagation of a SECOND orbit bound to the same "
+    "propagator object) on one shared orbit, its propagator and two listener objects; for the ephemeris 10 operations including own-step "
+    "iterations and the resumption of a suspended iterator. Each history is re-executed from scratch on the real objects; the observation "
+    "(propagate(t*), listened streams with events over (start, stop, step), dates=DateRange and dates=list, bytes and metadata of the "
+    "initial orbit) must equal that of fresh objects, and the three listened streams must equal each other.",
     note="Trusts the integer range model, direct propagate() of a fresh object as the state oracle (its own correctness is the "
     "subject of C05/C06/C07/C09/C16), and that the canonical state (observation + propagator._orbit + Listener.prev + "
     "Ephem cursor + number of suspended generators) determines future behaviour.",
     technique="exhaustive input product + explicit-state search over call histories on the real objects, integer range model as reference",
 )
 RULE = (
-    "part A: one case = (propagator, start, span, step, form); non-trivial when the expected stream has >= 2 dates or the range is "
+    "part A: one case = (propagator, start, span, step, form, entry); non-trivial when the expected stream has >= 2 dates or the range is "
     "backward / degenerate; distinct by the tuple. part B: one state = one call history (sequence of operations) re-executed from "
     "fresh objects; canonical states (observation, hidden fields) are hashed for the distinct-state count; non-trivial = history of length >= 1"
 )
 BOUNDS = {
-    "quick": "part A: 8 propagators x 3 starts x 6 spans x 3 steps x 3 forms through iter() (1296 cases before exclusions); part B: all histories of depth <= 3 "
-    "over 7 operations (400 per orbit propagator) / 9 operations (820, ephemeris)",
-    "thorough": "part A: the same product through iter(), ephemeris() and ephem(); part B: depth <= 4 (2 801 histories per orbit propagator, 7 381 for the ephemeris)",
+    "quick": "part A: 10 fixtures x 3 starts x 6 spans x 3 steps x 10 request forms through iter() (non-distinct combinations not generated), forms "
+    "{Date stop, timedelta stop} through ephem(), ephemeris() and (Sgp4, Kepler, KeplerNum) Station.visibility(); part B: all histories of depth <= 3 "
+    "over 8 operations (585 per orbit propagator, 9 fixtures) / 10 operations (1 111, ephemeris)",
+    "thorough": "part A: all forms through iter(), ephemeris() and ephem(); part B: depth <= 4 (4 681 histories per orbit propagator, 11 111 for the ephemeris)",
 }
 ASSUMPTIONS = [
-    "expected dates: start + k*step (k = 0, 1, ...) not beyond stop, the sign of step following the direction of the range; start == stop yields one date",
-    "state oracle = direct propagate(date) of a freshly built object; tolerance 1e-6 m (analytical), |v| x 3.3 us + 1e-6 m for the "
+    "expected dates: start + k*step (k = 0, 1, ...) not beyond stop, the sign of step following the direction of the range; start == stop yields one date; "
+    "start omitted or None = the orbit's epoch (first node for an ephemeris); stop as timedelta = start + stop",
+    "state oracle = direct propagate(date) of a freshly built object (cached per process); tolerance 1e-6 m (analytical), |v| x 3.3 us + 1e-6 m for the "
     "re-sampled numerical propagator / ephemeris (Date/MJD double resolution amplified by the interpolation stencils, see C06)",
     "numerical propagator of part A/B: KeplerNum(rk4, 60 s) on a 26 600 km orbit, where the truncation error of a step (1e-5 m) is far below the "
     "tolerance, so that differently anchored grids agree; KeplerNum(dopri54, 60 s) on a LEO orbit is added to exercise accepted steps shorter than the nominal one",
+    "KeplerNum with maneuvers: only epoch-anchored grids with outputs on the nodes are compared with the direct propagation (an off-grid date is interpolated "
+    "across the velocity jump, and the node at which an impulse is applied is grid-relative by design, C17); ClohessyWiltshire with maneuvers: everything",
     "for an Ephem 'own step' means its nodes inside [start, stop]; an Ephem shorter than the interpolation order is outside the property (documented ValueError)",
     "analytical propagators have no own step: step=None is outside the quantifier (counted as excluded)",
-    "listeners are two instances of a Listener subclass defined in the harness (zero crossing of a cartesian coordinate), usable in every frame",
+    "Station.visibility keeps the points above the horizon: the expected dates are filtered with the elevation of the direct propagation (points within 1e-7 rad "
+    "of the horizon are undecidable); the station sits under the orbit at its epoch",
+    "listeners are two instances of a Listener subclass defined in the harness (zero crossing of a cartesian coordinate), usable in every frame; their thresholds "
+    "are crossed once inside the observed range so that Listener.prev is left on either side of zero by the operations of part B",
 ]
 NOT_COVERED = (
     "interleaved consumption of two live iterators of an orbit propagator (only the ephemeris' suspended own-step iterator is resumed); "
-    "SoINumerical; the library's own listeners (C10); ranges outside an ephemeris (documented ValueError); histories longer than the depth bound"
+    "SoINumerical; the library's own listeners (C10); ranges outside an ephemeris (documented ValueError); histories longer than the depth bound; "
+    "numerical propagation with maneuvers on grids not anchored at the epoch"
 )
 
 DELTA = 60_000_000  # us
@@ -620,18 +632,23 @@ class World:
     def observe(self):
         fx = self.fx
         p = fx.obj.propagate(fx.at(TSTAR))
-        stream = list(self.it(RSTAR, self.L))
+        def rec(items):
+            return [(fx.us(o.date), A(o), o.event.info if getattr(o, "event", None) is not None else None) for o in items]
+
+        stream = rec(self.it(RSTAR, self.L))
         # the same range requested through explicit dates with the same (now used) listeners: a DateRange for everybody,
         # a plain list where the propagator accepts one (KeplerNum does not: known finding of part A)
-        stream += list(self.it_dates(RSTAR, self.L, "range"))
+        alt = {"range": rec(self.it_dates(RSTAR, self.L, "range"))}
         if not fx.numerical:
-            stream += list(self.it_dates(RSTAR, self.L, "list"))
+            alt["list"] = rec(self.it_dates(RSTAR, self.L, "list"))
         obs = dict(
             prop=(fx.us(p.date), A(p)),
-            stream=[(fx.us(o.date), A(o), o.event.info if getattr(o, "event", None) is not None else None) for o in stream],
+            stream=stream + [x for k in sorted(alt) for x in alt[k]],
+            first=stream,
+            alt=alt,
             initial=[dump_data(x) for x in fx.initial_orbits()],
         )
-        return obs, 1 + len(stream)
+        return obs, 1 + len(obs["stream"])
 
     def hidden(self):
         fx = self.fx
@@ -694,6 +711,17 @@ def check_history(case, t):
     except LIBERR as e:
         t.fail(f"{site}/history/observe-raises-{type(e).__name__}", clause, case, "no exception", repr(e)[:200], f"{pname} history {hist}")
         return
+    # within one observation: the listened stream over explicit dates equals the listened stream over (start, stop, step)
+    for kind, alt in obs["alt"].items():
+        a, b = obs["first"], alt
+        same = [(u, e) for u, _, e in a] == [(u, e) for u, _, e in b]
+        dev = max((float(np.max(np.abs(x[1] - y[1]))) for x, y in zip(a, b)), default=0.0) if same else float("inf")
+        if not same or not t.margin("B: listened stream over dates= vs over (start, stop, step) / state tol", dev, w.fx.tol):
+            t.fail(f"{site}/listened-stream/dates-{kind}-differs-from-start-stop-step",
+                   "iterating explicit dates yields exactly those dates with the same events as the equivalent (start, stop, step) request, whatever the listeners saw before",
+                   case, [(u * 1e-6, e) for u, _, e in a if e] + [len(a)], [(u * 1e-6, e) for u, _, e in b if e] + [len(b)],
+                   f"{pname} after {hist}: dates={kind} stream has {len(b)} items / events {[(u*1e-6, e) for u, _, e in b if e]}, "
+                   f"start-stop-step stream has {len(a)} items / events {[(u*1e-6, e) for u, _, e in a if e]}")
     worst, diffs = compare_obs(obs, fresh)
     t.state(("B", pname, [(u, y.tobytes().hex(), e) for u, y, e in obs["stream"]], obs["prop"][1].tobytes().hex(), tuple(map(str, obs["initial"])), w.hidden()))
     t.outcome(("B", pname, len(obs["stream"]), sum(1 for _, _, e in obs["stream"] if e)))
